@@ -63,6 +63,16 @@ def eval_call(ex, node, st, sink):
         for s, recv in ex.ev(f.value, st, sink):
             out += method_call(ex, f, recv, node, kw, s, sink)
         return out
+    if isinstance(f, ast.Call):
+        # calling the result of a call: obj(...)  ->  type(obj).__call__(obj, ...)
+        out = []
+        for s, v in ex.ev(f, st, sink):
+            c = ex.reg.find_method(v.t.cls, "__call__") if isinstance(v.t, ty.RefT) else None
+            if c is None:
+                raise Unsupported("call of a %s value at line %d" % (v.t, node.lineno))
+            for s2, vals in ex.ev_list(list(node.args), s, sink):
+                out += ex.call_contract(c, [v] + vals, {}, s2, sink, node)
+        return out
     raise Unsupported("call form at line %d" % node.lineno)
 
 
@@ -144,10 +154,39 @@ def b_list(ex, node, st, sink):
     return out
 
 
+def _members_of_seq(ex, new, base, seq, x):
+    """new == base U elements(seq), in skolemised form (no sequence `contains`, which neither solver links to positions):
+    every position of seq is a member; every old member stays; every member is old or sits at the witness position w(x)."""
+    n = ex._fresh()
+    a = z3.Const("a!mem%d" % n, z3.IntSort())
+    w = z3.Function("where_mem!%d" % n, x.sort(), z3.IntSort())
+    out = [z3.ForAll([a], z3.Implies(z3.And(0 <= a, a < z3.Length(seq.e)), z3.Select(new, seq.e[a])))]
+    at_w = z3.And(0 <= w(x), w(x) < z3.Length(seq.e), seq.e[w(x)] == x)
+    if base is None:
+        out.append(z3.ForAll([x], z3.Implies(z3.Select(new, x), at_w), patterns=[z3.Select(new, x)]))
+    else:
+        out.append(z3.ForAll([x], z3.Implies(z3.Select(base, x), z3.Select(new, x)), patterns=[z3.Select(base, x)]))
+        out.append(z3.ForAll([x], z3.Implies(z3.Select(new, x), z3.Or(z3.Select(base, x), at_w)), patterns=[z3.Select(new, x)]))
+    return out
+
+
 def b_set(ex, node, st, sink):
     if not node.args:
         return [(st, SV(ty.Set(ty.Any), None))]
-    raise Unsupported("set(iterable)")
+    out = []
+    for s_, v in ex.ev(node.args[0], st, sink):
+        if isinstance(v.t, ty.Set):
+            out.append((s_, SV(v.t, v.e)))   # a copy: values are immutable in the encoding
+        elif isinstance(v.t, ty.Seq):
+            # set(seq): x in result <=> seq contains x
+            new = ty.fresh(ty.Set(v.t.elem), "setof")
+            x = z3.Const("x!set%d" % ex._fresh(), ty.sort_of(v.t.elem))
+            for f in _members_of_seq(ex, new.e, None, v, x):
+                s_.assume(f)
+            out.append((s_, new))
+        else:
+            raise Unsupported("set(%s)" % v.t)
+    return out
 
 
 def b_dict(ex, node, st, sink):
@@ -609,10 +648,10 @@ def st_update(ex, rn, recv, args, s, sink, node):
     new = ty.fresh(recv.t, "union")
     x = z3.Const("x!upd%d" % ex._fresh(), ty.sort_of(recv.t.key))
     if isinstance(other.t, ty.Set):
-        member = z3.Select(other.e, x)
+        s.assume(z3.ForAll([x], z3.Select(new.e, x) == z3.Or(z3.Select(recv.e, x), z3.Select(other.e, x))))
     else:
-        member = z3.Contains(other.e, z3.Unit(x))
-    s.assume(z3.ForAll([x], z3.Select(new.e, x) == z3.Or(z3.Select(recv.e, x), member)))
+        for f in _members_of_seq(ex, new.e, recv.e, other, x):
+            s.assume(f)
     ex.store_loc(s, rn, new)
     return [(s, ty.none_val())]
 
